@@ -127,10 +127,17 @@ def run_case(stream, seed, ctx, params):
         if wrong == 0:
             wrong = ndim + 1
         rs = [(0, 1)] * wrong
+        if rng.random() < 0.35:
+            # the right number of real ranges, but more than three ranges in all (surplus trivial ones)
+            extra = rng.randint(4 - ndim, 5 - ndim)
+            rs = [(0, 1)] * ndim + [(k, k) for k in [0, 0, 2, 3][:extra]]
+            if rng.random() < 0.3:
+                rs = rs[ndim:] + rs[:ndim]
+            wrong = ndim
         c.fill = {'ranges': rs, 'us': [us[0]] * (2 ** wrong), 'tr': None}
         c.hints['fill_by_option'] = True
         args += ['--lattice', '%d,%s' % (c.id, ','.join('%d:%d' % r for r in rs))]
-        detail = '%d-for-%d' % (wrong, ndim)
+        detail = '%d-for-%d%s' % (wrong, ndim, ' (%d ranges)' % len(rs) if len(rs) > 3 else '')
         text = D.render_deck(d, D.Layout(rng))
     elif fault in ('surf-count', 'macro-count'):
         s = rng.choice(d.surfs)
